@@ -11,10 +11,14 @@
 (*     Verbatim; Escape/Format are transcribed character by character.     *)
 (*  Mode "manifest": scripts of open/copy operations run for real and as a *)
 (*     manifest run: ManifestFidelity.                                     *)
+(*  Mode "wrap":   emit_wrapped_text under 0-2 contexts: the greedy loop   *)
+(*     of textwrap transcribed (operational) against what the docstring    *)
+(*     promises (WrapKeepsText, WrapKeepsWords, WrapPrefixed, WrapWidth,   *)
+(*     WrapGreedy); the lines go through the same buffer machine.          *)
 (* Text is a sequence over the alphabet Chars (braces, format-like         *)
 (* sequences, a backslash, non-ASCII).                                     *)
 (***************************************************************************)
-EXTENDS Naturals, Sequences, FiniteSets, TLC, Json
+EXTENDS Integers, Sequences, FiniteSets, TLC, Json
 
 CONSTANTS Mode, MaxOps, Shard, NShards, EmitVectors
 VARIABLES script, path
@@ -58,7 +62,7 @@ PathVerdict(p) == IF ~Inside(p) THEN "refused"          \* before anything is wr
                   ELSE "no_file"                         \* the root itself / a directory: nothing may appear outside
 
 \* ============================================================= text, Escape, Format
-Chars == {"a", " ", "{", "}", "0", "x", "%", "e", "b"}      \* e = e-acute, b = backslash (rendered by the harness)
+Chars == {"a", " ", "{", "}", "0", "x", "%", "e", "b", "h"} \* e = e-acute, b = backslash, h = hyphen (rendered by the harness)
 Texts == { <<"a">>, <<"a", " ", "a">>, <<"{">>, <<"}">>, <<"{", "}">>, <<"{", "0", "}">>, <<"{", "x", "}">>,
            <<"{", "{">>, <<"}", "}", "a">>, <<"%", "x">>, <<"e", "b", "a">>, <<"a", "{", "a", "}", "a">>, <<>> }
 Escape(s) == Flat([i \in DOMAIN s |-> IF s[i] = "{" THEN <<"{", "{">> ELSE IF s[i] = "}" THEN <<"}", "}">> ELSE <<s[i]>>])
@@ -84,7 +88,7 @@ Format(t, pos, named) ==       \* returns [ok, s, pos]; pos = remaining position
               ELSE [ok |-> FALSE, s |-> <<>>]
          ELSE LET r == Format(Tail(t), pos, named) IN IF r.ok THEN [ok |-> TRUE, s |-> <<c>> \o r.s] ELSE r
 
-\* ============================================================= emit scripts
+\* ============================================================= emit scripts (operations)
 \* operations (one file is open throughout)
 OEmit(s)      == [op |-> "emit", s |-> s]                \* indentation + s + newline (empty s: bare newline)
 ORaw(s)       == [op |-> "raw", s |-> s]                 \* s + newline, no indentation
@@ -118,6 +122,96 @@ ListLines(k, compact) ==      \* before = "f", delim = ("(", ")"), sep = ",", af
          ELSE << [ind |-> 0, s |-> <<"a", "(">>] >> \o
               [i \in 1..k |-> [ind |-> 4, s |-> Item(i) \o <<"%">>]] \o << [ind |-> 0, s |-> <<")">>] >>
 \* ("%" stands for the separator "," which is not in Chars; the harness renders it so)
+\* ============================================================= wrapped text (emit_wrapped_text)
+\* The text is a sequence of words separated by single spaces.  The documentation of emit_wrapped_text: the wrapping
+\* is that of textwrap.fill; `prefix` goes before EVERY line, `initial_prefix` after it on the first line,
+\* `subsequent_prefix` after it on the others, the current indentation before all of them; `width` is the target
+\* width of a line INCLUDING indentation and prefixes; a word longer than that is broken only if break_long_words;
+\* with break_on_hyphens a line may also end right after the hyphen of a compound word.
+WA == <<"a">>
+W3 == <<"a", "a", "a">>
+WB == <<"{", "0", "}">>
+WH == <<"a", "a", "h", "a", "a">>
+WL == Rep(7, "a")
+WrapTexts == { <<WA>>, <<WA, W3, WA>>, <<W3, WB, W3>>, <<WA, WL, WA>>, <<WH, WH>>, <<W3, W3, W3, W3>>, <<WL, WH>> }
+OWrap(ws, p, ip, sp, w, blw, hy) == [op |-> "wrap", ws |-> ws, p |-> p, ip |-> ip, sp |-> sp, w |-> w, blw |-> blw, hy |-> hy]
+WrapOps == {OWrap(ws, p, pr[1], pr[2], w, blw, hy) :
+               ws \in WrapTexts, p \in {<<>>, <<"%">>},
+               pr \in {<< <<>>, <<>> >>, << <<"x">>, <<>> >>, << <<>>, <<"x", "x">> >>},
+               w \in {6, 10}, blw \in BOOLEAN, hy \in BOOLEAN}
+\* chunks: words (a compound word in two pieces, the first ending in the hyphen, if hy) and the spaces between them
+HyPos(w) == {i \in 3..(Len(w) - 2) : w[i] = "h"}
+Pieces(w, hy) == IF hy /\ HyPos(w) # {} THEN LET i == CHOOSE j \in HyPos(w) : TRUE IN <<SubSeq(w, 1, i), SubSeq(w, i + 1, Len(w))>>
+                 ELSE <<w>>
+RECURSIVE Chunks(_, _)
+Chunks(ws, hy) == IF ws = <<>> THEN <<>>
+                  ELSE Pieces(Head(ws), hy) \o (IF Len(ws) > 1 THEN << <<" ">> >> ELSE <<>>) \o Chunks(Tail(ws), hy)
+LenOf(cs) == Len(Flat(cs))
+Blank(c) == c = <<>> \/ c = <<" ">>
+\* --- operational: the greedy loop of textwrap (one line per round)
+RECURSIVE WrapFill(_, _, _)
+WrapFill(cur, rest, avail) == IF rest # <<>> /\ LenOf(cur) + Len(Head(rest)) <= avail
+                              THEN WrapFill(Append(cur, Head(rest)), Tail(rest), avail)
+                              ELSE [cur |-> cur, rest |-> rest]
+RECURSIVE WrapGo(_, _, _, _, _, _)
+WrapGo(ch, lines, i1, i2, w, blw) ==
+    IF ch = <<>> THEN lines
+    ELSE LET indent == IF lines = <<>> THEN i1 ELSE i2
+             avail  == w - Len(indent)
+             ch1    == IF Blank(Head(ch)) /\ lines # <<>> THEN Tail(ch) ELSE ch          \* one blank chunk is dropped at the start of a later line
+             f      == WrapFill(<<>>, ch1, avail)
+             g      == IF f.rest # <<>> /\ Len(Head(f.rest)) > avail
+                       THEN IF blw
+                            THEN LET sl == IF avail < 1 THEN 1 ELSE avail - LenOf(f.cur)
+                                     c  == Head(f.rest)
+                                     k  == IF sl > Len(c) THEN Len(c) ELSE sl
+                                 IN  [cur |-> Append(f.cur, SubSeq(c, 1, k)), rest |-> <<SubSeq(c, k + 1, Len(c))>> \o Tail(f.rest)]
+                            ELSE IF f.cur = <<>> THEN [cur |-> <<Head(f.rest)>>, rest |-> Tail(f.rest)] ELSE f
+                       ELSE f
+             cur2   == IF g.cur # <<>> /\ Blank(g.cur[Len(g.cur)]) THEN SubSeq(g.cur, 1, Len(g.cur) - 1) ELSE g.cur
+         IN  IF cur2 # <<>> THEN WrapGo(g.rest, Append(lines, [ind |-> indent, body |-> Flat(cur2)]), i1, i2, w, blw)
+             ELSE WrapGo(g.rest, lines, i1, i2, w, blw)
+\* lines of a wrap operation under `ind` columns of indentation: each [ind (indentation and prefixes), body]
+WrapLines(o, ind) == WrapGo(Chunks(o.ws, o.hy), <<>>, Pad(ind) \o o.p \o o.ip, Pad(ind) \o o.p \o o.sp, o.w, o.blw)
+WrapText(o, ind) == LET ls == WrapLines(o, ind)
+                        RECURSIVE J(_)
+                        J(i) == IF i > Len(ls) THEN <<>>
+                                ELSE ls[i].ind \o ls[i].body \o (IF i < Len(ls) THEN <<NL>> ELSE <<>>) \o J(i + 1)
+                    IN  J(1)
+\* --- what the documentation promises about these lines
+NoSpace(s) == SelectSeq(s, LAMBDA c : c # " ")
+RECURSIVE SplitWords(_, _)
+SplitWords(s, cur) == IF s = <<>> THEN (IF cur = <<>> THEN <<>> ELSE <<cur>>)
+                      ELSE IF Head(s) = " " THEN (IF cur = <<>> THEN <<>> ELSE <<cur>>) \o SplitWords(Tail(s), <<>>)
+                      ELSE SplitWords(Tail(s), Append(cur, Head(s)))
+AllPieces(ws, hy) == Flat([i \in DOMAIN ws |-> Pieces(ws[i], hy)])
+WrapContexts == {0, 4, 8}
+\* static properties of the wrap operator: evaluated once, in the initial state of Mode "wrap"
+AtWrapStart == Mode = "wrap" /\ script = <<>>
+\* every character of every word, in order, nothing else but the separating spaces
+WrapKeepsText == AtWrapStart => \A o \in WrapOps, ind \in WrapContexts :
+    LET ls == WrapLines(o, ind) IN Flat([i \in DOMAIN ls |-> NoSpace(ls[i].body)]) = Flat(o.ws)
+\* unless long words may be broken, the lines hold the words themselves, in order; a compound word may be
+\* divided after its hyphen (compared piece by piece: the two pieces of a word on one line are written together)
+WrapKeepsWords == AtWrapStart => \A o \in WrapOps, ind \in WrapContexts : ~o.blw =>
+    LET ls == WrapLines(o, ind) IN AllPieces(Flat([i \in DOMAIN ls |-> SplitWords(ls[i].body, <<>>)]), o.hy) = AllPieces(o.ws, o.hy)
+\* indentation, then prefix, then the initial or the subsequent prefix
+WrapPrefixed == AtWrapStart => \A o \in WrapOps, ind \in WrapContexts :
+    LET ls == WrapLines(o, ind) IN
+    \A i \in DOMAIN ls : ls[i].ind = Pad(ind) \o o.p \o (IF i = 1 THEN o.ip ELSE o.sp)
+\* a line exceeds the width only by a single unbroken word (or a single character, when the prefixes alone fill the width)
+WrapWidth == AtWrapStart => \A o \in WrapOps, ind \in WrapContexts :
+    LET ls == WrapLines(o, ind) IN
+    \A i \in DOMAIN ls : Len(ls[i].ind) + Len(ls[i].body) > o.w =>
+        IF o.blw THEN Len(ls[i].body) = 1 ELSE Len(SplitWords(ls[i].body, <<>>)) = 1
+\* greedy: the first piece of the next line would not have fitted (when words are not broken)
+WrapGreedy == AtWrapStart => \A o \in WrapOps, ind \in WrapContexts : ~o.blw =>
+    LET ls == WrapLines(o, ind) IN
+    \A i \in DOMAIN ls : i < Len(ls) =>
+        LET nxt == SplitWords(ls[i + 1].body, <<>>)[1]
+            sep == IF o.hy /\ ls[i].body[Len(ls[i].body)] = "h" THEN 0 ELSE 1
+        IN  Len(ls[i].ind) + Len(ls[i].body) + sep + Len(nxt) > o.w
+
 Step(st, o) ==
     CASE o.op = "emit"   -> EmitLine(st, o.s)
       [] o.op = "raw"    -> [st EXCEPT !.out = @ \o Escape(o.s) \o <<NL>>]
@@ -133,6 +227,7 @@ Step(st, o) ==
                                 Go(s0, i) == IF i > Len(ls) THEN s0
                                              ELSE Go(EmitLine([s0 EXCEPT !.ind = st.ind + ls[i].ind], ls[i].s), i + 1)
                             IN  [Go(st, 1) EXCEPT !.ind = st.ind]
+      [] o.op = "wrap"   -> [st EXCEPT !.out = @ \o Escape(WrapText(o, st.ind)) \o <<NL>>]     \* through emit_raw
 RECURSIVE RunOps(_, _)
 RunOps(st, ops) == IF ops = <<>> THEN st ELSE RunOps(Step(st, Head(ops)), Tail(ops))
 EmptyNamed == [x \in {} |-> <<>>]
@@ -161,6 +256,7 @@ RefStep(st, o) ==
                                 Go(s0, i) == IF i > Len(ls) THEN s0
                                              ELSE Go(RefLine([s0 EXCEPT !.ind = st.ind + ls[i].ind], ls[i].s), i + 1)
                             IN  [Go(st, 1) EXCEPT !.ind = st.ind]
+      [] o.op = "wrap"   -> [st EXCEPT !.out = Append(@, [k |-> "text", s |-> WrapText(o, st.ind) \o <<NL>>])]
 RECURSIVE RefRun(_, _)
 RefRun(st, ops) == IF ops = <<>> THEN st ELSE RefRun(RefStep(st, Head(ops)), Tail(ops))
 \* registered texts: named -> last registration wins; positional in registration order
@@ -206,14 +302,21 @@ PickPath == /\ Mode = "paths" /\ script = <<>>
 AddOp == /\ Mode \in {"emit", "manifest"} /\ Len(script) < MaxOps
          /\ \E o \in (IF Mode = "emit" THEN Ops ELSE MOps) : script' = Append(script, o)
          /\ UNCHANGED path
-Next == PickPath \/ AddOp
+\* Mode "wrap": up to two contexts, one wrapped text, optionally an ordinary line after it
+AddWrap == /\ Mode = "wrap" /\ Len(script) < MaxOps
+           /\ \E o \in (IF \E i \in DOMAIN script : script[i].op = "wrap"
+                         THEN (IF script[Len(script)].op = "wrap" THEN {OEmit(<<"a">>)} ELSE {})
+                         ELSE (IF Len(script) < 2 THEN {OIndent, OBlock(<<"a">>)} ELSE {}) \cup WrapOps) :
+                  script' = Append(script, o)
+           /\ UNCHANGED path
+Next == PickPath \/ AddOp \/ AddWrap
 Spec == Init /\ [][Next]_vars
 
 \* ============================================================= properties
 \* Escape then Format is the identity, on every text, and never fails
 EscapeFormatIdentity == \A s \in Texts : Format(Escape(s), <<>>, EmptyNamed) = [ok |-> TRUE, s |-> s]
 \* the buffer machine (escape on emit, str.format at close) yields exactly the reference text
-Verbatim == Mode = "emit" => OpFile(script) = RefFile(script)
+Verbatim == Mode \in {"emit", "wrap"} => OpFile(script) = RefFile(script)
 \* a contained request never resolves outside the root; a refused one is outside
 Contained == Mode = "paths" /\ script # <<>> => (PathVerdict(path) # "refused" <=> IsPrefix(RootStack, Resolved(path)))
 ManifestFidelity == Mode = "manifest" => Manifest(script) = RealFiles(script)
@@ -223,7 +326,7 @@ OpIndex(o) == CHOOSE i \in DOMAIN OpSeq : OpSeq[i] = o
 InShard == Mode # "emit" \/ script = <<>> \/ OpIndex(script[1]) % NShards = Shard
 Vector ==
     CASE Mode = "paths" -> [mode |-> "paths", path |-> path, verdict |-> PathVerdict(path), resolved |-> Resolved(path)]
-      [] Mode = "emit"  -> [mode |-> "emit", script |-> script, file |-> RefFile(script)]
+      [] Mode \in {"emit", "wrap"} -> [mode |-> "emit", script |-> script, file |-> RefFile(script)]
       [] Mode = "manifest" -> [mode |-> "manifest", script |-> script, files |-> SetToSeq(RealFiles(script).files),
                                refused |-> RealFiles(script).refused]
 Emit == IF EmitVectors /\ script # <<>> THEN PrintT(<<"VEC", ToJson(Vector)>>) ELSE TRUE
